@@ -404,7 +404,6 @@ fn receive_forwarding_case(part: u8) {
     assert!(r.fwd == want && r.fwd_sender_ok, "C15: set of TLVs offered for forwarding != propagating TLVs of the Announce");
     kani::cover!(want == 2, "two TLVs forwarded");
     kani::cover!(want == 0 && ntlv == 2, "no TLV forwarded of two");
-    kani::cover!(part == 0 || ntlv == 3, "three TLVs");
 }
 
 
